@@ -1,7 +1,8 @@
 ------------------------------ MODULE GEN_Deco ------------------------------
 (* Scenario generator for the invariance half of C08: "the hash is unchanged by comments, whitespace, debug mode and
    decorators".  A scenario is a small body - a sequence over N (an instruction that assembles to a single NOOP),
-   O (a plain operation), P (a push), D (a decorator / comment) - placed in a wrapper that decides how the assembler
+   O (a plain operation), P (a push), D (a decorator / comment), C (a control-flow block, so that a decorator can stand
+   between two blocks with no operation to attach to) - placed in a wrapper that decides how the assembler
    joins it with its neighbours (top level, repeat body, inlined procedure, branch, loop body), optionally followed by
    a further operation.  Erase(body) removes the D elements; the prescription is
        hash(body in wrapper, any decorator kind, debug mode on or off) = hash(Erase(body) in the same wrapper, debug off).
@@ -10,14 +11,18 @@
 EXTENDS Naturals, Sequences, TLC, Json
 CONSTANT MAXLEN
 VARIABLES phase, sc
-Elems == {"N", "O", "P", "D"}
+Elems == {"N", "O", "P", "D", "C"}      \* C : a control-flow block (no span of its own next to its neighbours)
 Bodies == UNION {[1 .. n -> Elems] : n \in 1 .. MAXLEN}
 Wrappers == {"top", "repeat", "exec", "branch", "loop", "call"}
 Tails == {"none", "O"}
 Erase(b) == SelectSeq(b, LAMBDA e : e # "D")
 HasD(b) == \E i \in 1 .. Len(b) : b[i] = "D"
+\* a decorator is isolated when walking outwards over decorators reaches a control block or the end of the body on both sides
+RECURSIVE Reach(_, _, _)
+Reach(b, i, dir) == IF i < 1 \/ i > Len(b) THEN "end" ELSE IF b[i] = "D" THEN Reach(b, IF dir = "L" THEN i - 1 ELSE i + 1, dir) ELSE b[i]
+Isolated(b) == \E i \in 1 .. Len(b) : b[i] = "D" /\ Reach(b, i, "L") \in {"end", "C"} /\ Reach(b, i, "R") \in {"end", "C"}
 Cases == {[wrap |-> w, body |-> [i \in 1 .. Len(b) |-> b[i]], tail |-> t] : w \in Wrappers, b \in {x \in Bodies : HasD(x)}, t \in Tails}
 Init == phase = "init" /\ sc \in Cases
 Next == /\ phase = "init" /\ phase' = "done" /\ sc' = sc
-        /\ PrintT(ToJson([tag |-> "deco", wrap |-> sc.wrap, body |-> sc.body, tail |-> sc.tail, erased |-> Erase(sc.body)]))
+        /\ PrintT(ToJson([tag |-> "deco", wrap |-> sc.wrap, body |-> sc.body, tail |-> sc.tail, erased |-> Erase(sc.body), isolated |-> Isolated(sc.body)]))
 =============================================================================
